@@ -47,7 +47,7 @@ var runs = map[string][2]int{ // quick, thorough (thorough sized for roughly 10-
 	"C04": {1500, 1200000},
 	"C05": {1200, 300000},
 	"C06": {3000, 900000},
-	"C07": {30, 6000},
+	"C07": {60, 6000},
 	"C08": {1500, 1000000},
 	"C09": {400, 200000},
 	"C10": {160, 150000},
